@@ -56,6 +56,13 @@ package coreblock
 //@   assert before call#1 Marshal: res(determineBlockEncryption, 1, 0) != nil ==> arg0 == res(encryptBlock, 1, 0)
 //@   assert before call#1 putBlock: arg1 == res(Blockstore, 2, 0) || arg1 == res(Blockstore, 1, 0)
 //@   tags C11
+//@ // the field name that decides about encryption is the delta's own field name, for every kind of delta
+//@ extern immutable.Some[string](v) -> (o)
+//@   pure
+//@   opt alias=someStr sig=string:immutable.Option[string]
+//@ func AddDelta
+//@   assert before call#1 determineBlockEncryption: res(GetFieldName, 1, 0) != "" ==> arg2 == someStr(res(GetFieldName, 1, 0))
+//@   tags C11
 //@ func encryptBlock -> (r, err)
 //@   assert before call#1 Encrypt: sameslice(arg1, res(GetData, 1, 0)) && sameslice(arg2, encBlock.Key)
 //@   assert before call#1 SetData: arg0 == res(Clone, 1, 0) && sameslice(arg1, res(Encrypt, 1, 0))
@@ -72,6 +79,10 @@ package coreblock
 //@ // exactly those bytes against the key named by the signature block
 //@ func New -> (b)
 //@   ensures b != nil && b.Signature == nil && b.Encryption == nil
+//@   tags C12
+//@ // the block that is signed is the block that is stored and announced
+//@ func AddDelta
+//@   assert before call#1 putBlock: res(EnabledSigningFromContext, 1, 0) ==> as(arg2, *Block) == callarg(signBlock, 1, 2)
 //@   tags C12
 //@ func signBlock -> (err)
 //@   requires block.Signature == nil
